@@ -102,3 +102,5 @@ func childMain(args []string) {
 	}
 	fn(args[1:])
 }
+
+func nopLogger() *zap.SugaredLogger { return zap.NewNop().Sugar() }
